@@ -156,6 +156,11 @@ def cases(tier, inst):
     for h in histories(initial(), enabled, step, d):
         if h and (h[-1][0] in "EY") and any(o in DECL for o in h) == any(o[0] == "E" for o in h):
             yield h
+    # histories in which an evaluation of a no-domain query is SUSPENDED after its first result (P<i>) and resumed to the
+    # end later (M<i>), with constructions, registry clears and other evaluations in between
+    for h in histories(r_initial(), r_enabled, r_step, 6 if tier == "quick" else 7):
+        if h and h[-1][0] == "M":
+            yield ("@resume",) + h
     # the same histories, two levels shallower, with the result cache DISABLED for the whole history (the registry of
     # instances is not a result cache: constructions must be registered all the same)
     for h in histories(initial(), enabled, step, d - 2):
@@ -163,9 +168,118 @@ def cases(tier, inst):
             yield ("@nocache",) + h
 
 
+# ---------------------------------------------------------------- suspended evaluations (reference machine: pure)
+R_KONS = ("KB", "KS")
+R_DECL = ("DB", "DS")
+
+
+def r_initial():
+    return (0, ())        # number of declared queries (<= 2), for each: "idle" / "suspended"
+
+
+def r_enabled(st):
+    nq, states = st
+    ops = list(R_KONS) + ["C"]
+    if nq < 2:
+        ops += list(R_DECL)
+    for i, s_ in enumerate(states):
+        ops += [f"E{i + 1}"] if s_ == "idle" else []
+        ops += [f"P{i + 1}"] if s_ == "idle" else [f"M{i + 1}"]
+    return ops
+
+
+def r_step(st, op):
+    nq, states = st
+    if op in R_DECL:
+        return (nq + 1, states + ("idle",))
+    if op[0] in "PM":
+        i = int(op[1]) - 1
+        return (nq, states[:i] + (("suspended" if op[0] == "P" else "idle"),) + states[i + 1:])
+    return st
+
+
+def run_resume(hist, inst):
+    def body():
+        log, queries, its = [], [], {}
+        nth = trans = 0
+        for i, op in enumerate(hist):
+            trans += 1
+            try:
+                if op in R_KONS:
+                    nth += 1
+                    o = KONS[op](nth)
+                    log.append(o)
+                    for st in its.values():
+                        st["ever"].add(id(o))
+                elif op == "C":
+                    clear_registry()
+                    del log[:]
+                    for st in its.values():
+                        st["cleared"] = True
+                elif op in R_DECL:
+                    cls = W.CLASSES[DECL[op]]
+                    if op == "DB":
+                        v = let(cls)
+                        with symbolic_mode():
+                            q = an(entity(v))
+                    else:
+                        with symbolic_mode():
+                            q = an(entity(cls()))
+                    queries.append((cls, q))
+                elif op[0] == "E":
+                    cls, q = queries[int(op[1]) - 1]
+                    got = sorted(id(o) for o in q.evaluate())
+                    exp = sorted(id(o) for o in log if isinstance(o, cls))
+                    if got != exp:
+                        return ("full-evaluation-while-another-is-suspended", i, op, len(got), len(exp)), trans
+                elif op[0] == "P":
+                    qi = int(op[1]) - 1
+                    cls, q = queries[qi]
+                    live = {id(o) for o in log if isinstance(o, cls)}
+                    it = q.evaluate()
+                    first = [o for o in [next(it, None)] if o is not None]
+                    its[qi] = {"it": it, "first": first, "at_start": live, "ever": set(live), "cleared": False}
+                elif op[0] == "M":
+                    qi = int(op[1]) - 1
+                    cls, q = queries[qi]
+                    st = its.pop(qi)
+                    try:
+                        rest = list(st["it"])
+                    except Exception as e:
+                        return ("resume-raised", i, op, exc_obs(e), "the remaining instances"), trans
+                    allgot = [id(o) for o in st["first"] + rest]
+                    if len(set(allgot)) != len(allgot):
+                        return ("resume-duplicate", i, op, len(allgot), len(set(allgot))), trans
+                    if any(not isinstance(o, cls) for o in st["first"] + rest):
+                        return ("resume-wrong-type", i, op, [type(o).__name__ for o in rest], cls.__name__), trans
+                    if set(allgot) - st["ever"]:
+                        return ("resume-never-live", i, op, len(set(allgot) - st["ever"]), 0), trans
+                    if not st["cleared"] and st["at_start"] - set(allgot):
+                        # what was live when the evaluation started and still is must be delivered, whatever was
+                        # constructed in between (those may or may not be: `so far` can be read either way)
+                        return ("resume-missing", i, op, len(st["at_start"] - set(allgot)), 0), trans
+            except Exception as e:
+                return ("step-raised", i, op, exc_obs(e), "no exception"), trans
+        for st in its.values():
+            st["it"].close()
+        return None, trans
+
+    bad, trans = run_isolated(body)
+    between = any(o in R_KONS or o == "C" for o in hist)
+    res = {"ok": bad is None, "nontrivial": between, "transitions": trans,
+           "tags": [f"len={len(hist)}", "suspended_evaluation"] + [f"op={o[0] if o[0] in 'KDEPM' else o}" for o in set(hist)],
+           "outcome": None}
+    if bad is not None:
+        kind, i, op, got, exp = bad
+        res.update(sig=f"{kind}", obs=(f"at step {i + 1} of {list(hist)}", got), exp=exp)
+    return res
+
+
 def run_case(hist, inst):
     if hist and hist[0] in ("Q1", "Q2"):
         return run_query_case(hist, inst)
+    if hist and hist[0] == "@resume":
+        return run_resume(hist[1:], inst)
     caching = True
     if hist and hist[0] == "@nocache":
         caching, hist = False, hist[1:]
@@ -347,6 +461,12 @@ def describe(hist, inst):
         return (Q.up_world(TWO, inst) + "\n# nothing else has been constructed: the registries are exactly DA (Item) and DO (Other)\n"
                 + Q.up_query(q, inst) + "\nrows = list(q.evaluate())   # expected: every satisfying (x, y) pair, each once; the same when evaluated "
                 "again, and again after `it = q.evaluate(); next(it); it.close()`")
+    if hist and hist[0] == "@resume":
+        return (f"history: {' ; '.join(hist[1:])}\n# KB=Base(n, 7) KS=Sub(k=n) C=clear the registry DB=declare q=an(entity(let(Base))) "
+                "DS=`with symbolic_mode(): an(entity(Sub()))` E<i>=list(q<i>.evaluate()) P<i>=it<i> = q<i>.evaluate(); next(it<i>, None) "
+                "M<i>=list(it<i>)   [the suspended evaluation is resumed to its end]\n"
+                "# expected at M<i>: no exception; first + rest without repetition, all of the type, all live at some time since "
+                "P<i>; everything that was live at P<i> (unless the registry was cleared in between)")
     pre = ""
     if hist and hist[0] == "@nocache":
         pre, hist = "disable_caching()   # for the whole history\n", hist[1:]
